@@ -5,6 +5,7 @@ import (
 	"sort"
 	"strconv"
 	"strings"
+	"sync"
 
 	"github.com/ClickHouse/clickhouse-go/v2/lib/proto"
 )
@@ -37,7 +38,12 @@ type Object struct {
 	HasTo       bool
 	From        QName // view / materialized view source
 	Select      string
-	canon       string
+	canon       *lazyCanon
+}
+
+type lazyCanon struct {
+	once sync.Once
+	s    string
 }
 
 func (o *Object) clone() *Object {
@@ -49,7 +55,7 @@ func (o *Object) clone() *Object {
 	for k, v := range o.Settings {
 		n.Settings[k] = v
 	}
-	n.canon = ""
+	n.canon = nil
 	return &n
 }
 
@@ -66,6 +72,11 @@ func (o *Object) HasCol(name string) bool {
 func (o *Object) StoragePolicy() string { return o.Settings["storage_policy"] }
 
 func (o *Object) seal() *Object {
+	o.canon = &lazyCanon{}
+	return o
+}
+
+func (o *Object) buildCanon() string {
 	var sb strings.Builder
 	fmt.Fprintf(&sb, "kind=%s engine=%s", o.Kind, o.Engine)
 	sb.WriteString(" cols=[")
@@ -109,12 +120,14 @@ func (o *Object) seal() *Object {
 	if o.Kind == KMView || o.Kind == KView {
 		sb.WriteString(" from=" + o.From.String() + " select=" + o.Select)
 	}
-	o.canon = sb.String()
-	return o
+	return sb.String()
 }
 
-// Canon is the canonical description of the object.
-func (o *Object) Canon() string { return o.canon }
+// Canon is the canonical description of the object (computed once, on demand).
+func (o *Object) Canon() string {
+	o.canon.once.Do(func() { o.canon.s = o.buildCanon() })
+	return o.canon.s
+}
 
 // Row of a modelled table content (`ver`, `settings`).
 type Row struct {
@@ -269,7 +282,7 @@ func (c *Catalogue) Canon() string {
 	sort.Strings(dbs)
 	for _, d := range dbs {
 		for _, n := range c.Names(d) {
-			sb.WriteString(d + "." + n + ": " + c.DBs[d][n].canon + "\n")
+			sb.WriteString(d + "." + n + ": " + c.DBs[d][n].Canon() + "\n")
 		}
 	}
 	tabs := make([]string, 0, len(c.Data))
